@@ -3,7 +3,7 @@
 From Verif Require Import Lib.Base Lib.Dyadic Lib.Utf8 Model.Printf Proofs.PrintfSpec Proofs.PrintfBase Proofs.PrintfInt.
 
 (* ---- flags ---- *)
-Definition apply_flag (f : fst) (c : Z) : fst :=
+Definition apply_flag (f : fmts) (c : Z) : fmts :=
   if c =? 35 then set_sharp f true
   else if c =? 48 then set_zero f true
   else if c =? 43 then set_plus f true
